@@ -141,16 +141,19 @@ def curie_ok(c, s):
     return c.delimiter in s and known(c, before(s, c.delimiter))
 
 
-def same_names(c1, c2):
-    """c1 and c2 have the same set-level view V(c) (same owner structure on both sides)."""
+def sub_names(c1, c2):
+    """Every name of c1 is registered in c2 under a record with the same canonical prefix / URI prefix."""
     return (
-        all(known(c2, p) and owner(c2, p).prefix == r.prefix and owner(c2, p).uri_prefix == r.uri_prefix
+        all(any(p in P(r2) and r2.prefix == r.prefix and r2.uri_prefix == r.uri_prefix for r2 in c2.records)
             for r in c1.records for p in P(r))
-        and all(known(c1, p) for r in c2.records for p in P(r))
-        and all(uknown(c2, u) and uowner(c2, u).prefix == r.prefix for r in c1.records for u in U(r))
-        and all(uknown(c1, u) for r in c2.records for u in U(r))
-        and c1.delimiter == c2.delimiter
+        and all(any(u in U(r2) and r2.prefix == r.prefix and r2.uri_prefix == r.uri_prefix for r2 in c2.records)
+                for r in c1.records for u in U(r))
     )
+
+
+def same_names(c1, c2):
+    """c1 and c2 have the same set-level view V(c): same names, same owner structure, same delimiter."""
+    return sub_names(c1, c2) and sub_names(c2, c1) and c1.delimiter == c2.delimiter
 
 
 def prefix_free(c):
